@@ -44,7 +44,9 @@ RULE = ("Hypothesis-generated cases of three kinds. conv (75%): magnitude (int/r
 KEY_FZ = "float-zero-not-wildcard"
 TOL_INEXACT = sympy.Rational(1, 10**12)
 TOL_EXACT = sympy.Rational(1, 10**30)
-mpmath.mp.dps = 60
+# a private context: the library under test may use mpmath's global context, whose precision must stay untouched
+MPX = mpmath.mp.clone()
+MPX.dps = 60
 
 # ------------------------------------------------------------------------------------------------
 # generators
@@ -426,10 +428,10 @@ class _Discard(Exception):
 def _mp(x: Any) -> Any:
     x = sympy.sympify(x)
     re_, im_ = x.as_real_imag()
-    r = mpmath.mpf(str(sympy.N(re_, 70)))
+    r = MPX.mpf(str(sympy.N(re_, 70)))
     if im_ == 0:
         return r
-    return mpmath.mpc(r, mpmath.mpf(str(sympy.N(im_, 70))))
+    return MPX.mpc(r, MPX.mpf(str(sympy.N(im_, 70))))
 
 
 def _eval_tree(t: Any, qv: list[Any], uv: list[Any], xv: list[Any]) -> tuple[Any, Any]:
@@ -470,7 +472,7 @@ def _eval_tree(t: Any, qv: list[Any], uv: list[Any], xv: list[Any]) -> tuple[Any
         a, sa = _eval_tree(t[1], qv, uv, xv)
         if abs(a) > 1000:
             raise _Discard("large sin argument")
-        v = mpmath.sin(a)
+        v = MPX.sin(a)
         return v, max(abs(v), sa)
     raise ValueError(op)
 
@@ -539,8 +541,8 @@ def judge_eval(case: dict[str, Any]) -> tuple[list[tuple[str, str]], list[str]]:
         return [("__discard__", "zoo")], labels + ["eval:discard-zero-division"]
     present = expr.atoms(SymQuantity)
     labels.append(f"eval:quantities-present={min(len(present), 3)}")
-    for mode, kw, tol in (("plain", {}, mpmath.mpf(10)**-25 if exact else mpmath.mpf(10)**-12),
-        ("evaluate", {"evaluate": True}, mpmath.mpf(10)**-12)):
+    for mode, kw, tol in (("plain", {}, MPX.mpf(10)**-25 if exact else MPX.mpf(10)**-12),
+        ("evaluate", {"evaluate": True}, MPX.mpf(10)**-12)):
         try:
             res = evaluate_expression(expr, **kw)
         except Exception as exc:  # pylint: disable=broad-except
@@ -566,8 +568,8 @@ def judge_eval(case: dict[str, Any]) -> tuple[list[tuple[str, str]], list[str]]:
             continue
         if abs(got - want) > tol * scale:
             out.append((f"evaluate_expression:value:{mode}", f"evaluate_expression({expr}, {kw}) = {res}; at x={env[0]}, y={env[1]} it is "
-                f"{mpmath.nstr(got, 25)} but the expression is worth {mpmath.nstr(want, 25)} (tolerance {mpmath.nstr(tol, 3)} x "
-                f"scale {mpmath.nstr(scale, 5)})"))
+                f"{MPX.nstr(got, 25)} but the expression is worth {MPX.nstr(want, 25)} (tolerance {MPX.nstr(tol, 3)} x "
+                f"scale {MPX.nstr(scale, 5)})"))
     return out, labels
 
 
